@@ -415,7 +415,9 @@ def python_oracle(run, expected, same):
 
 def make_group(rng, gi, wnames, tier):
     nf = rng.choice([0, 0, 1, 1, 2, 3])
-    nw = rng.choice([0, 0, 1, 2])
+    if gi >= len(FAULTS) and gi % 2 == 0:
+        nf = 0            # every second group after the catalogue walk is fault-free: warnings only, must succeed and write
+    nw = rng.choice([0, 0, 1, 2]) if nf else rng.choice([0, 1, 1, 2])
     base = gen_base(rng)
     lines, kinds, wids, adir = plant(rng, base, nf, nw, allow_crash=(rng.random() < 0.05))
     if gi < len(FAULTS):
@@ -749,7 +751,7 @@ def explore(rep, br, tier, seed):
         catalogue_selftest(rep)
         block_part(rep, rng, 400 if tier == "quick" else 4000)
         wargs_part(rep, rng, 150 if tier == "quick" else 1500)
-        cli_part(rep, rng, tier, 90 if tier == "quick" else 700)
+        cli_part(rep, rng, tier, 126 if tier == "quick" else 700)
     finally:
         cleanup()
 
